@@ -1,12 +1,197 @@
 import GridVerif.Model.Proto
 import GridVerif.Model.Elem
+import GridVerif.Model.AtomInterp
 
 namespace GridVerif.Driver.C09
-open GridVerif.Proto
+open GridVerif.Proto GridVerif.AtomInterp
 
-/-- Line-protocol handler of property C09: `C09.<op> args…` ↦ one answer line
-(`none` = malformed, answered `bad-op`). -/
+/-
+  Protocol (arrays travel as tables; a table is read back as a function of its index, an index outside
+  the table answers nan, which no comparison accepts):
+
+  grid := n <fvec r> <fvec w> <vec deg> <vec idx (n+1)> <fvec wts (N)> <fvec regenW (N, laid out like wts)>
+  C09.integrate  grid <fvec f>                 -> ok <fvec per-shell> <reweighted sum> <grid integral>
+  C09.average    grid <fvec f>                 -> ok <fvec per-shell / 4π> <radial 4π r² quadrature of them>
+  C09.components grid <fmat basis rows×N> <fvec f>
+                                               -> ok <lMax> <fmat nRows(lMax/2) × n> | shape-mismatch <rows expected>
+  C09.cart_to_sph <3 floats centre> <fmat M×3>  -> ok <fmat M×3 (r, θ, φ)>
+  C09.grid_angles n <fvec r> <vec idx> <3 floats centre> <fmat pts N×3> <fmat regenPts N×3>
+                                               -> ok <fmat N×2 (θ, φ)>
+  C09.assemble   nrows deriv dsph onlyrad <fmat sph M×3> <fmat sNu rows×M> <fmat s0> <fmat y> <fmat dyt> <fmat dyp>
+                                               -> ok <vec shape> <fvec data> | value-error
+  C09.mol_combine k <fvec out_0> … <fvec out_{k-1}> -> ok <fvec>
+-/
+
+def nan : Float := 0.0 / 0.0
+
+/-- Tables are converted to arrays by the caller (`let a := xs.toArray` in the handler, evaluated once);
+`tabA a` is then a closure over the finished array.  (A definition `tab xs := let a := xs.toArray; fun j => …`
+is compiled with arity 2 and would convert the list on every look-up.) -/
+@[noinline] def tabA (a : Array Float) (j : Nat) : Float := a.getD j nan
+
+@[noinline] def tabNA (a : Array Nat) (j : Nat) : Nat := a.getD j 0
+
+@[noinline] def tab2A (a : Array (Array Float)) (i j : Nat) : Float := (a.getD i #[]).getD j nan
+
+def arr2 (m : List (List Float)) : Array (Array Float) := (m.map List.toArray).toArray
+
+def toVec3 : List Float → Option (Vec3 Float)
+  | [x, y, z] => some ⟨x, y, z⟩
+  | _ => none
+
+def p3 : List String → Option (Vec3 Float × List String)
+  | a :: b :: c :: rest => do
+    let a ← pFloat a
+    let b ← pFloat b
+    let c ← pFloat c
+    pure (⟨a, b, c⟩, rest)
+  | _ => none
+
+def pBool : String → Option Bool
+  | "0" => some false
+  | "1" => some true
+  | _ => none
+
+/-- `grid` of the protocol; points are not needed by the list-algebra ops. -/
+def pGrid (toks : List String) : Option (AGrid Float × Nat × List String) :=
+  match toks with
+  | [] => none
+  | n :: rest => do
+    let n ← pNat n
+    let (r, rest) ← pVec pFloat rest
+    let (w, rest) ← pVec pFloat rest
+    let (deg, rest) ← pVec pNat rest
+    let (idx, rest) ← pVec pNat rest
+    let (wts, rest) ← pVec pFloat rest
+    let (rw, rest) ← pVec pFloat rest
+    if r.length ≠ n ∨ w.length ≠ n ∨ deg.length ≠ n ∨ idx.length ≠ n + 1 then none else
+    let npts := idx.getLast?.getD 0
+    if wts.length ≠ npts ∨ rw.length ≠ npts then none else
+    let idxA := idx.toArray
+    let rwA := rw.toArray
+    let rA := r.toArray
+    let wA := w.toArray
+    let degA := deg.toArray
+    let wtsA := wts.toArray
+    let idxf := tabNA idxA
+    let rwf := tabA rwA
+    let z : Vec3 Float := ⟨0.0, 0.0, 0.0⟩
+    pure ({ nShells := n, r := tabA rA, w := tabA wA, deg := tabNA degA, idx := idxf, wts := tabA wtsA,
+            pts := fun _ => z, center := z,
+            regenW := fun i k => rwf (idxf i + k), regenPts := fun _ _ => z }, npts, rest)
+
+def showOut : Except Err (List Nat × List Float) → String
+  | .ok (shape, data) => s!"ok {sNats shape} {sFloats data}"
+  | .error .valueError => "value-error"
+
+def rowsOf (m : List (List Float)) : Option (List (Vec3 Float)) := m.mapM toVec3
+
 def handle : List String → Option String
+  | "C09.integrate" :: rest => do
+    let (g, npts, rest) ← pGrid rest
+    let (f, rest) ← pVec pFloat rest
+    if rest ≠ [] ∨ f.length ≠ npts then none else
+    let fA := f.toArray
+    let ff := tabA fA
+    let a := integrateAngular g ff
+    pure s!"ok {sFloats ((List.range g.nShells).map a)} {sFloat (reweightedSum g a)} {sFloat (gridIntegral g ff)}"
+  | "C09.average" :: rest => do
+    let (g, npts, rest) ← pGrid rest
+    let (f, rest) ← pVec pFloat rest
+    if rest ≠ [] ∨ f.length ≠ npts then none else
+    let fA := f.toArray
+    let a := averageValues g (tabA fA)
+    let vals := (List.range g.nShells).map a
+    -- the radial quadrature of the node values (a spline that interpolates returns them at the nodes)
+    let valsA := vals.toArray
+    let av := tabA valsA
+    let back := sumTo g.nShells (fun i => (((4 : Nat) : Float) * Elem.pi * (g.r i * g.r i) * av i) * g.w i)
+    pure s!"ok {sFloats vals} {sFloat back}"
+  | "C09.components" :: rest => do
+    let (g, npts, rest) ← pGrid rest
+    let (bas, rest) ← pMat pFloat rest
+    let (f, rest) ← pVec pFloat rest
+    if rest ≠ [] ∨ f.length ≠ npts then none else
+    let rows := nRows (g.lMax / 2)
+    if bas.length ≠ rows then pure s!"shape-mismatch {rows}" else
+    if bas.any (fun r => r.length ≠ npts) then none else
+    let basA := arr2 bas
+    let fA := f.toArray
+    let c := radialComponents g (tab2A basA) (tabA fA)
+    pure s!"ok {g.lMax} {sMat sFloat ((List.range rows).map fun row => (List.range g.nShells).map (c row))}"
+  | "C09.cart_to_sph" :: rest => do
+    let (c, rest) ← p3 rest
+    let (m, rest) ← pMat pFloat rest
+    if rest ≠ [] then none else
+    let ps ← rowsOf m
+    pure ("ok " ++ sMat sFloat (ps.map fun p => let s := cartToSph c p; [s.r, s.theta, s.phi]))
+  | "C09.grid_angles" :: n :: rest => do
+    let n ← pNat n
+    let (r, rest) ← pVec pFloat rest
+    let (idx, rest) ← pVec pNat rest
+    let (c, rest) ← p3 rest
+    let (pm, rest) ← pMat pFloat rest
+    let (rm, rest) ← pMat pFloat rest
+    if rest ≠ [] ∨ r.length ≠ n ∨ idx.length ≠ n + 1 then none else
+    let npts := idx.getLast?.getD 0
+    let ps ← rowsOf pm
+    let rs ← rowsOf rm
+    if ps.length ≠ npts ∨ rs.length ≠ npts then none else
+    let idxA := idx.toArray
+    let idxf := tabNA idxA
+    let bad : Vec3 Float := ⟨nan, nan, nan⟩
+    let pa := ps.toArray
+    let ra := rs.toArray
+    let rA := r.toArray
+    let g : AGrid Float :=
+      { nShells := n, r := tabA rA, w := fun _ => nan, deg := fun _ => 0, idx := idxf, wts := fun _ => nan,
+        pts := fun j => pa.getD j bad, center := c, regenW := fun _ _ => nan,
+        regenPts := fun i k => ra.getD (idxf i + k) bad }
+    let ang := gridAngles g
+    pure ("ok " ++ sMat sFloat ((List.range npts).map fun j => [(ang j).1, (ang j).2]))
+  | "C09.assemble" :: nrows :: deriv :: dsph :: orad :: rest => do
+    let nrows ← pNat nrows
+    let deriv ← pNat deriv
+    let dsph ← pBool dsph
+    let orad ← pBool orad
+    let (sph, rest) ← pMat pFloat rest
+    let (sNu, rest) ← pMat pFloat rest
+    let (s0, rest) ← pMat pFloat rest
+    let (y, rest) ← pMat pFloat rest
+    let (dyt, rest) ← pMat pFloat rest
+    let (dyp, rest) ← pMat pFloat rest
+    if rest ≠ [] then none else
+    let qs ← rowsOf sph
+    let m := qs.length
+    let okShape := fun (t : List (List Float)) => t.length = nrows ∧ t.all (fun r => r.length = m)
+    if ¬ (okShape sNu ∧ okShape s0 ∧ okShape y ∧ okShape dyt ∧ okShape dyp) then none else
+    let aN := arr2 sNu
+    let a0 := arr2 s0
+    let aY := arr2 y
+    let aT := arr2 dyt
+    let aP := arr2 dyp
+    let tN := tab2A aN
+    let t0 := tab2A a0
+    let tY := tab2A aY
+    let tT := tab2A aT
+    let tP := tab2A aP
+    let pts : List (PtData Float) := (List.range m).zip qs |>.map fun (k, q) =>
+      { sph := ⟨q.x, q.y, q.z⟩, sNu := fun row => tN row k, s0 := fun row => t0 row k,
+        y := fun row => tY row k, dyt := fun row => tT row k, dyp := fun row => tP row k }
+    pure (showOut (assemble nrows pts deriv dsph orad))
+  | "C09.mol_combine" :: k :: rest => do
+    let k ← pNat k
+    let rec go : Nat → List String → Option (List (List Float))
+      | 0, [] => some []
+      | 0, _ => none
+      | k + 1, toks => do
+        let (v, rest) ← pVec pFloat toks
+        let tl ← go k rest
+        pure (v :: tl)
+    let outs ← go k rest
+    if k = 0 then none else
+    let oa := outs.toArray
+    pure (showOut (molCombine k fun A => .ok ([], oa.getD A [])))
   | _ => none
 
 end GridVerif.Driver.C09
